@@ -56,9 +56,21 @@ def gen_cases(ctx, n):
             d = A.structured_archive(r); kind = "structured"
         elif k < 0.45:
             d = A.mac_many(r); kind = "mac-short"
-        toks = A.legal_history(r, maxentries=8, extract_fail=0.15)
+        elif k < 0.6:
+            d = r.choice([A.dirkind_archive, A.dirkind_archive, A.odd_method_archive, A.prefix_dirs_archive])(r); kind = "dir-kinds"
+        toks = A.legal_history(r, maxentries=8, extract_fail=0.15) if kind != "dir-kinds" else A.extract_history(r, 8)
         # make extraction frequent: it is what creates fake directories and deferred symlinks
         toks = [("x1" if (t == "c" and r.random() < 0.5) else t) for t in toks]
+        if kind == "dir-kinds" and r.random() < 0.5:
+            # trees with dangerous links and directories, every entry extracted, the file-system step failing on a third of them
+            # (placeholder cannot be created, directory exists, link refused): the failure paths of every extract_* function
+            from vlib import treegen as T
+            ents = T.rand_tree(r, maxdepth=2, nfiles=6, dangerous=0.45, safe_links=0.15, levels=(r.choice([0, 1, 2]),))
+            d = T.encode_archive(ents)
+            toks = []
+            for _ in range(len(ents) + 3):
+                toks += ["n", "x0" if r.random() < 0.35 else "x1"]
+            kind = "tree-extract-fail"
         skind, pol = r.choice(A.KINDS), r.choice(A.POLICIES)
         cuts = sorted(set([len(toks)] + [r.randrange(1, len(toks) + 1) for _ in range(3)])) if ctx.tier == "quick" \
             else range(1, len(toks) + 1)
